@@ -40,8 +40,12 @@ func server(stream bool) *srv.Echo {
 }
 
 // serverObs is the observable result of serving bytes under one segmentation.
-func serverObs(e *srv.Echo, b []byte, cuts []int) string {
-	obs, res, _ := e.Run(sconn.Split(b, cuts), sconn.EOF)
+func serverObs(e *srv.Echo, b []byte, cuts []int, end ...sconn.End) string {
+	how := sconn.EOF
+	if len(end) > 0 {
+		how = end[0]
+	}
+	obs, res, _ := e.Run(sconn.Split(b, cuts), how)
 	var sb strings.Builder
 	for i, o := range obs {
 		fmt.Fprintf(&sb, "[%d] %s %s %s hdr=%q body(%d)=%q err=%q tr=%q\n", i, o.Method, o.URI, o.Proto, o.Headers, len(o.Body), o.Body, cli.ErrClass(o.BodyErr), o.Trailers) // the error text embeds a dump of the read buffer, which legitimately depends on the segmentation: compare its class
@@ -193,6 +197,11 @@ func TestC02Server(t *testing.T) {
 			rec.Case(nt, ev.Hash(b, []byte(fmt.Sprint(stream, cuts))), cls, mode)
 			if got := serverObs(e, b, cuts); got != whole {
 				t.Fatalf("server result depends on segmentation (streaming=%v, mutations=%v, cuts=%v)\n%s\nstream: %q", stream, muts, trim(cuts), diff(whole, got), short(b))
+			}
+			// the end of the stream noticed in the read that delivers the last bytes (TLS with the close_notify in
+			// the same segment), or in the next one: the same bytes
+			if got := serverObs(e, b, cuts, sconn.EOFWithLast); got != whole {
+				t.Fatalf("server result depends on whether the end of the stream is reported with the last bytes or by a read of its own (streaming=%v, mutations=%v, cuts=%v)\n%s\nstream: %q", stream, muts, trim(cuts), diff(whole, got), short(b))
 			}
 		}
 		if rec.WantSample() && ntCuts > 0 {
